@@ -94,7 +94,7 @@ Definition query_hashes (seed : N) (ls : list (list N)) (qs : list (option N)) :
 
 (* tamperings: (kind, i, impl verdict).  kind 0: query hash i replaced by another value's leaf hash;
    1: root replaced; 2: sibling hash i replaced; 3: idx i replaced by the idx of leaf position j (encoded in i as
-   i = qi * 65536 + j); 4: the claim (idx of query i, another hash) put in FRONT of the honest claims; 5: proof.Size := i; 6: ancestor claim shadowing a false leaf claim *)
+   i = qi * 65536 + j); 4: the claim (idx of query i, another hash) put in FRONT of the honest claims; 5: proof.Size := i; 6: ancestor claim shadowing a false leaf claim; 7: extra claim at an index outside the tree *)
 Definition other_hash (seed k : N) : hsh := hleaf (other_val seed (1000 + k)).
 Definition replace_nth {A} (i : nat) (x : A) (l : list A) : list A := set_nth i x l.
 
@@ -124,10 +124,12 @@ Definition check_proof (c : proof_case) : N :=
          | None => false
          end
     else if k =? 4 then verify_proof hbranch bytes_eqb (other_hash seed i :: qh) n (nth (N.to_nat i) iidxs 0 :: iidxs) isibs root
-    else if k =? 6 then (* claim (ancestor [i mod 8] levels above query [i / 8], honest hash) in front; the leaf claimed with another hash *)
-      let qi := i / 8 in
+    else if k =? 6 then (* claim (ancestor [i mod 64] levels above query [i / 64], honest hash) in front; the leaf claimed with another hash *)
+      let qi := i / 64 in
       verify_proof hbranch bytes_eqb (nth (N.to_nat qi) qh [] :: replace_nth (N.to_nat qi) (other_hash seed qi) qh) n
-                   (N.shiftr (nth (N.to_nat qi) iidxs 0) (i mod 8) :: iidxs) isibs root
+                   (N.shiftr (nth (N.to_nat qi) iidxs 0) (i mod 64) :: iidxs) isibs root
+    else if k =? 7 then (* an extra claim (index i that names no node of the tree, another hash) in front of the honest claims *)
+      verify_proof hbranch bytes_eqb (other_hash seed 3 :: qh) n (i :: iidxs) isibs root
     else (* 5: proof.Size replaced by i (unauthenticated field) *) verify_proof hbranch bytes_eqb qh i iidxs isibs root in
   let agree_t := forallb (fun t => Bool.eqb (snd t) (tamper_model t)) tampers in
   let has_present := existsb (fun q => match q with Some _ => true | None => false end) qs in
@@ -169,7 +171,9 @@ Definition check_upd (c : upd_case) : N :=
     match mroot_upd with Ok r => negb ierr && bytes_eqb r iroot && list_eqb bytes_eqb ipath mpath | _ => ierr end &&
     opt_root_eqb icalc mcalc &&
     match iapp, mapp with Some a, Some (r, _, _) => bytes_eqb a r | None, None => true | _, _ => false end in
-  let spec :=
+  (* the same position twice with different data: Update may refuse (it does: conflicting hashes for one index) *)
+  let conflict := existsb (fun u => existsb (fun v => (fst u =? fst v) && negb (snd u =? snd v)) ups) ups in
+  let spec := (conflict && ierr) ||
     negb ierr && bytes_eqb iroot (mroot' ls') && list_eqb bytes_eqb ipath (subtree_roots hempty hleaf hbranch ls') &&
     match icalc with Some x => bytes_eqb x (mroot' ls') | None => false end &&
     match iapp with Some a => bytes_eqb a (mroot' (ls' ++ [leaf_val seed n])) | None => false end in
@@ -229,9 +233,21 @@ Definition seq_case : Type :=
 Definition apply_op (seed : N) (ls : list (list N)) (o : N * N * N) : list (list N) :=
   let '(k, a, b) := o in
   if k =? 0 then ls ++ [leaf_val seed a] else if k =? 2 then ls (* re-open from the store *) else set_nth (N.to_nat a) (leaf_val seed b) ls.
+(* the hash->location index of rmt.go for LEAVES (saveNode: hash -> location, overwritten by every later write of the same
+   hash, never deleted: replaceNode's Del(prevValue) deletes an un-prefixed key, i.e. nothing): the position a leaf value
+   resolves to is the position of the LAST write of that value (Append or Update), whether or not it is still there *)
+Definition writes (ids : list N) (ops : list (N * N * N)) : list (N * N) :=   (* (value id, position), oldest first *)
+  let init := combine ids (map N.of_nat (seq 0 (length ids))) in
+  fst (fold_left (fun (st : list (N * N) * N) (o : N * N * N) =>
+                    let '(w, sz) := st in let '(k, a, b) := o in
+                    if k =? 0 then (w ++ [(a, sz)], sz + 1) else if k =? 2 then (w, sz) else (w ++ [(b, a)], sz))
+                 ops (init, N.of_nat (length ids))).
+Definition last_write (w : list (N * N)) (id : N) : option N :=
+  match find (fun p => fst p =? id) (rev w) with Some p => Some (snd p) | None => None end.
 Definition check_seq (c : seq_case) : N :=
   let '(seed, ids, ops, ist, reload, proofs, rws) := c in
   let ls := fold_left (apply_op seed) ops (map (leaf_val seed) ids) in
+  let wr := writes ids ops in
   let n := N.of_nat (length ls) in
   let root := mroot' ls in
   let path := subtree_roots hempty hleaf hbranch ls in
@@ -243,8 +259,12 @@ Definition check_seq (c : seq_case) : N :=
     let qh := map (fun id => hleaf (leaf_val seed id)) qids in
     let msibs := sibling_hashes (node_at ls) n iidxs in
     let mver := verify_proof hbranch bytes_eqb qh n iidxs isibs root in
+    (* model of getIndexes: every query resolves to the leaf index of the last write of its value *)
+    let midxs := map (fun id => match last_write wr id with Some p => 2 ^ height + p | None => 0 end) qids in
     let agree := if ierr then true
-                 else match msibs with Ok sb => list_eqb bytes_eqb sb isibs | _ => false end && Bool.eqb mver iver in
+                 else match msibs with Ok sb => list_eqb bytes_eqb sb isibs | _ => false end && Bool.eqb mver iver &&
+                      (negb (forallb (fun id => match last_write wr id with Some _ => true | None => false end) qids)
+                       || list_eqb N.eqb midxs iidxs) in
     let idx_ok (qi : N * N) :=
       let '(id, idx) := qi in
       if present id then
@@ -255,12 +275,15 @@ Definition check_seq (c : seq_case) : N :=
     let spec := if all_present && negb (Nat.eqb (length qids) 0)
                 then negb ierr && Nat.eqb (length iidxs) (length qids) && forallb idx_ok (combine qids iidxs) && iver
                 else true in
-    (* the known defect class: a queried value that IS in the list was resolved to a leaf position that holds another
-       value (the hash->location index is single-valued and Update never cleans it) *)
+    (* the known defect class: a queried value that IS in the list was resolved to the position where it was written LAST
+       in this script and which an Update has overwritten since (the hash->location index is single-valued and Update
+       never cleans it); any other mis-resolution is not this class *)
     let stale_hit (qi : N * N) :=
       let '(id, idx) := qi in
       present id && (2 ^ height <=? idx) && (idx <? 2 ^ height + n) &&
-      negb (bytes_eqb (nth (N.to_nat (idx - 2 ^ height)) ls []) (leaf_val seed id)) in
+      negb (bytes_eqb (nth (N.to_nat (idx - 2 ^ height)) ls []) (leaf_val seed id)) &&
+      (* ... and it is the position of the LAST write of the value in this script, since overwritten by an Update *)
+      match last_write wr id with Some p => idx =? 2 ^ height + p | None => false end in
     let stale := negb ierr && Nat.eqb (length iidxs) (length qids) && existsb stale_hit (combine qids iidxs) in
     (agree, spec, stale) in
   let run_rw (w : N * option (list hsh) * option hsh * bool) : bool * bool :=
